@@ -391,11 +391,13 @@ echs_evstrm_vmux_clon(const echs_evstrm_t s[], size_t n)
 	if (UNLIKELY(strm == NULL)) {
 		return NULL;
 	}
-	for (size_t i = strm1, j = 0U; i < n; i++) {
+	nstrm = 0U;
+	for (size_t i = strm1; i < n; i++) {
 		if (UNLIKELY(s[i] == NULL)) {
 			;
-		} else if ((strm[j] = clone_echs_evstrm(s[i])) != NULL) {
-			j++;
+		} else if ((strm[nstrm] = clone_echs_evstrm(s[i])) != NULL) {
+			/* (a stream that has ended has no clone) */
+			nstrm++;
 		}
 	}
 	return make_evmux(strm, nstrm);
